@@ -1,6 +1,6 @@
 #!/bin/sh
 # tools/seed_verify.sh <Cxx> <A|B> [label] : confirm a sub-agent's mutant in its scratch worktree, then keep it under seeded/
-p=$1; m=$2; label=${3:-$2}; wt=/tmp/wt/$p; s=$wt/_seed
+p=$1; m=$2; label=${3:-$2}; wt=${WT:-/tmp/wt}/$p; s=$wt/_seed
 git -C $wt checkout -- src
 cd $wt
 PYTHONPATH=$wt/src /venv/bin/python $s/${m}_demo.py >/dev/null 2>&1; clean=$?
